@@ -67,16 +67,31 @@ func followJumps(b *ssa.BasicBlock) *ssa.BasicBlock {
 	return b
 }
 
-func constBoolReturn(b *ssa.BasicBlock) (val bool, ok bool) {
+func constBoolReturn(b *ssa.BasicBlock) (bool, bool) {
 	ret, isRet := b.Instrs[len(b.Instrs)-1].(*ssa.Return)
 	if !isRet || len(ret.Results) != 1 {
 		return false, false
 	}
-	k, isC := strip(ret.Results[0]).(*ssa.Const)
-	if !isC || k.Value == nil {
+	// origins() sees through defer-spilled results (*r = true; rundefers; t = *r; return t)
+	os := origins(ret.Results[0])
+	if len(os) == 0 {
 		return false, false
 	}
-	return k.Value.ExactString() == "true", true
+	val := ""
+	for _, o := range os {
+		k, isC := strip(o).(*ssa.Const)
+		if !isC || k.Value == nil {
+			return false, false
+		}
+		if val != "" && val != k.Value.ExactString() {
+			return false, false
+		}
+		val = k.Value.ExactString()
+	}
+	if val != "true" && val != "false" {
+		return false, false
+	}
+	return val == "true", true
 }
 
 // branch is an If that branches on exactly one boolean value; T / F are the successors taken when
